@@ -488,6 +488,26 @@ def r6(chk):
     chk.ob("C16.R6", where, "sibling-constants", okb and oks,
            "RAIRE's helper uses big == make_overstatement(0) and small == make_overstatement(1/2) (for its fixed upper_bound = 1)",
            node=fn, big=repr(big)[:120], small=repr(small)[:120])
+    # the same placement as the core's find_sample_size: one-vote values first, two-vote values (0) afterwards, so that a position
+    # hit by both carries the two-vote overstatement
+    from ..canon import expand_locals
+    sts = [(t, v, s0) for t, v, s0 in stores(fn) if isinstance(t, ast.Subscript) and norm(t.value) == XN]
+    okp = False
+    detail = {}
+    if len(sts) == 2 and parent(sts[0][2]) is parent(sts[1][2]):
+        blk = parent(sts[0][2])
+        lst = blk.body if sts[0][2] in blk.body else blk.orelse
+        (t1, v1, s1), (t2, v2, s2) = sorted(sts, key=lambda z: lst.index(z[2]))
+        X = lambda e: norm(expand_locals(e, fn, stop=(XN,)))
+        npar = [a.arg for a in fn.args.args]
+        Nn = "N" if "N" in npar else None
+        i1, i2 = X(t1.slice), X(t2.slice)
+        want = lambda r: f"np.arange(0,{Nn},step=int(1/args.{r}),dtype=int)ifargs.{r}else[]"
+        detail = dict(first=f"{i1} := {norm(v1)}", second=f"{i2} := {norm(v2)}")
+        okp = norm(v1) == SMALLN and norm(v2) == "0" and i1 == want("erate1") and i2 == want("erate2")
+    chk.ob("C16.R6", where, "sibling-placement", okp,
+           "RAIRE's helper places the one-vote value at every int(1/erate1)-th position and then 0 at every int(1/erate2)-th, in that "
+           "order (two-vote errors overwrite one-vote errors), as the core's find_sample_size does", node=fn, strength="N", **detail)
     d = [a for a in fn.args.args if a.arg == "upper_bound"]
     defaults = dict(zip([a.arg for a in fn.args.args][-len(fn.args.defaults):], fn.args.defaults))
     chk.ob("C16.R6", where, "upper_bound-default-1", "upper_bound" in defaults and norm(defaults["upper_bound"]) == "1",
